@@ -61,6 +61,7 @@ RULE = ("(1a) value sequences of 0-30 values (a pool of 2-5 small dyadic numbers
         "(1b) argument arrays of 0-12 such values (also with strings / nested arrays) to the real evalFunctions[count first last sorted sum avg average med median min max] and the scalar functions abs floor ceil round on [], [nil], [x], [bool], [x,y], [string] incl. .5 ties; "
         "(1c) expressions (function calls with 0-3 arguments among array variables, an empty array, numbers, [x s], nil-valued calls such as first(e), nested calls, arithmetic / comparison around them) through the real compileExpr + (*audition).evalExpr; "
         "(1d) the real processAssignments of an auditor with 1-3 computes/collects clauses called 3-14 times, before each call the input variables set (numbers, booleans, strings, arrays incl. the empty one, so that first(q)/max(q) are nil in the middle of the sequence) or left de-activated (dependency gate), 7 of 10 with input-only expressions (oracle: the real evaluator's value of each expression), the others with clauses over earlier targets; "
+        "(1e) the clause-level tie: single collects clauses whose count is written with leading zeros (010, 0012, 09, 007, 08, 019, 0100 ... and random %0*d spellings of 1..20; every count in the other generated configurations is also written with leading zeros one time in three) must be accepted and keep the DECIMAL count of values (run N+4 times through the real processAssignments), a count of 0 / 00 must be refused, and no generated configuration may be refused by the parser; "
         "(2) audiences of 2-4 auditors (activation none/throughout/mood-based/signal-based) with 2-6 collects/computes clauses, each either over signals only or over variables defined earlier in the file by ANY member (so later members read earlier members' variables in the same round and earlier members read later members' variables one round late), an observer watching most variables, histories of 1-3 on-phases (mood red and x above the threshold) through the real audition via cmd.VerifAudition; "
         "plus the fixed corpus (witnesses of the refuted statements, past failures). "
         "distinct = by printed Coq term; non-trivial = collect: more values than N+1; function: >= 2 arguments; expression: >= 2 calls; processAssignments: >= 2 clauses and >= 5 calls; chain: >= 3 observations of computed/collected variables and >= 2 activation periods")
@@ -128,7 +129,7 @@ def run(tier, seed):
             res.violation(None, "correspondence cases did not evaluate (shard %d)" % shard,
                           {"kind": "cases-eval", "output": cout[-6000:]}, no_input=True)
             return res.finish()
-        for k in totals:
+        for k in ("collect", "fn", "expr", "assign", "chain"):
             totals[k] += summary[k]
         nontriv += summary["distinct_nontrivial"]
         for k, v in summary["stats"].items():
@@ -195,7 +196,25 @@ def run(tier, seed):
                         "audit_err": c["Result"]["AuditErr"], "panic": c["Result"]["Panic"],
                         "oracle_bits": code, "produced_values": c["Specs"],
                         "replay": "cmd.VerifAudition(config, events, false, false)"})
-        for k in n_oracle:
+        # ---- the clause-level tie: what the parser accepts, and the count it reads
+        n_clause_bad = 0
+        for c in cases.get("clause", []):
+            if c["ExpectAccepted"] == c["Accepted"]:
+                continue
+            n_clause_bad += 1
+            if c["ExpectAccepted"]:
+                report("valid-collects-clause-refused",
+                       "a configuration that is valid by the grammar (a count is any run of digits, read in decimal%s) is refused: %s"
+                       % ((": `%s` is %d" % (c["Written"], c["Decimal"])) if c.get("Written") else "", c["Err"]),
+                       {"config": c["Cfg"], "error": c["Err"], "count_as_written": c.get("Written"),
+                        "replay": "cmd.VerifC11Assign(config, \"al\", nil, nil).ParseErr"})
+            else:
+                report("collects-clause-with-zero-count-accepted",
+                       "`collects ... %s %s` is accepted although the count must be at least 1" % (c["Mode"], c["Written"]),
+                       {"config": c["Cfg"], "replay": "cmd.VerifC11Assign(config, \"al\", nil, nil).ParseErr"})
+        n_oracle["clause"] = n_oracle.get("clause", 0) + n_clause_bad
+        totals["clause"] = totals.get("clause", 0) + summary.get("clause", 0)
+        for k in bad:
             n_oracle[k] += len(bad[k])
         # ---- model / implementation disagreements the oracle does not explain
         for key, q in (("collect", "Mc"), ("fn", "Mf"), ("expr", "Me"), ("assign", "Ma"), ("chain", "Mh")):
@@ -205,7 +224,7 @@ def run(tier, seed):
                     unexplained.append((key, shard, i, cases[key][i]))
 
     res.coverage.update({
-        "evaluations": sum(totals.values()),
+        "evaluations": sum(v for k, v in totals.items() if k != "clause"),
         "distinct_nontrivial": nontriv,
         "rule": RULE,
         "distribution": dict(totals, **{"stats": stats}),
